@@ -13,6 +13,7 @@ import (
 	"flag"
 	"fmt"
 	"os"
+	"os/exec"
 	"path/filepath"
 	"runtime/debug"
 	"sort"
@@ -73,7 +74,7 @@ func main() {
 	var self *an.SelfTest
 	selfBroken := false
 	if *tier == "thorough" && len(fails) == 0 && *replay == "" {
-		self = selfTest(pr, c.P)
+		self = selfTest(pr, c.P, *out, findings)
 		selfBroken = len(self.Survived) > 0
 	}
 
@@ -198,79 +199,113 @@ func doReplay(c *an.Ctx, path string) int {
 }
 
 // selfTest applies each mutant through an in-memory overlay and requires the rule to fire.
-func selfTest(pr *rules.Property, base *an.Prog) *an.SelfTest {
+func selfTest(pr *rules.Property, base *an.Prog, outDir string, findings []an.Finding) *an.SelfTest {
 	repo := base.Dir
-	st := &an.SelfTest{Mutants: len(pr.Mutants)}
-	type res struct {
-		name            string
-		skipped, killed bool
-		broken          bool
-		detail          string
+	type job struct {
+		name  string
+		rule  string
+		files map[string][]byte // nil = could not be applied
+		why   string
 	}
-	results := make([]res, len(pr.Mutants))
+	var jobs []job
+	for _, m := range pr.Mutants {
+		j := job{name: m.Name, rule: m.Rule, files: map[string][]byte{}}
+		for _, e := range append([]rules.Edit{{File: m.File, Old: m.Old, New: m.New}}, m.More...) {
+			cur, ok := j.files[e.File]
+			if !ok {
+				b, err := os.ReadFile(filepath.Join(repo, e.File))
+				if err != nil {
+					j.files, j.why = nil, fmt.Sprintf("%s: %v", m.Name, err)
+					break
+				}
+				cur = b
+			}
+			if strings.Count(string(cur), e.Old) != 1 {
+				j.files, j.why = nil, fmt.Sprintf("%s: edit site not found exactly once in %s", m.Name, e.File)
+				break
+			}
+			j.files[e.File] = []byte(strings.Replace(string(cur), e.Old, e.New, 1))
+		}
+		jobs = append(jobs, j)
+	}
+	// changes written by independent sub-agents and adopted under <out>/seeded/<PROP>-<k>/ (patch.diff + meta.json)
+	seeds, _ := filepath.Glob(filepath.Join(outDir, "seeded", pr.ID+"-*", "patch.diff"))
+	for _, pf := range seeds {
+		dir := filepath.Dir(pf)
+		name := "seeded/" + filepath.Base(dir)
+		var meta struct {
+			Expect string `json:"expect_rule"`
+		}
+		if b, err := os.ReadFile(filepath.Join(dir, "meta.json")); err == nil {
+			json.Unmarshal(b, &meta)
+		}
+		if meta.Expect == "" {
+			continue // adopted but (not yet) claimed to be detected by this property's rules
+		}
+		files, err := applyPatch(repo, pf)
+		j := job{name: name, rule: meta.Expect, files: files}
+		if err != nil {
+			j.files, j.why = nil, fmt.Sprintf("%s: patch does not apply to the current tree: %v", name, err)
+		}
+		jobs = append(jobs, j)
+	}
+	st := &an.SelfTest{Mutants: len(jobs)}
+	type res struct {
+		name                    string
+		skipped, killed, broken bool
+		detail                  string
+	}
+	results := make([]res, len(jobs))
 	sem := make(chan struct{}, 12)
 	var wg sync.WaitGroup
-	for i, m := range pr.Mutants {
+	for i, j := range jobs {
 		wg.Add(1)
-		go func(i int, m rules.Mutant) {
+		go func(i int, j job) {
 			defer wg.Done()
 			sem <- struct{}{}
 			defer func() { <-sem }()
-			r := res{name: m.Name}
-			file := filepath.Join(repo, m.File)
-			src, err := os.ReadFile(file)
-			if err != nil || strings.Count(string(src), m.Old) != 1 {
-				r.skipped = true
-				r.detail = fmt.Sprintf("%s: edit site not found exactly once in %s", m.Name, m.File)
-				results[i] = r
+			r := res{name: j.name}
+			defer func() { results[i] = r }()
+			if j.files == nil {
+				r.skipped, r.detail = true, j.why
 				return
 			}
-			mp, err := base.Mutate(m.File, []byte(strings.Replace(string(src), m.Old, m.New, 1)))
-			var c *an.Ctx
-			if err == nil {
-				c = analyseProg(pr, mp, "quick")
-			}
+			mp, err := base.MutateFiles(j.files)
 			if err != nil {
-				r.skipped = true
-				r.detail = fmt.Sprintf("%s: %v", m.Name, err)
-				results[i] = r
+				r.skipped, r.detail = true, fmt.Sprintf("%s: %v", j.name, err)
 				return
 			}
-			if m.Rule == "-" {
+			c := analyseProg(pr, mp, "quick")
+			c.ApplyFindings(findings)
+			fs := c.Failures()
+			if len(fs) > 0 && fs[0].Rule == "type-check" {
+				r.broken = true
+				r.detail = fmt.Sprintf("%s: variant does not compile (fix the self-test): %s", j.name, fs[0].Msg)
+				return
+			}
+			if j.rule == "-" {
 				// behaviour-preserving variant: every rule must stay silent
-				if fs := c.Failures(); len(fs) == 0 {
+				if len(fs) == 0 {
 					r.killed = true
-					r.detail = fmt.Sprintf("%s → silent, as required for a behaviour-preserving variant", m.Name)
-				} else if fs[0].Rule == "type-check" {
-					r.broken = true
-					r.detail = fmt.Sprintf("%s: variant does not compile (fix the self-test): %s", m.Name, fs[0].Msg)
+					r.detail = fmt.Sprintf("%s → silent, as required for a behaviour-preserving variant", j.name)
 				} else {
-					r.detail = fmt.Sprintf("%s: FALSE ALARM on a behaviour-preserving variant: %s (%s)", m.Name, fs[0].Key, fs[0].Msg)
+					r.detail = fmt.Sprintf("%s: FALSE ALARM on a behaviour-preserving variant: %s (%s)", j.name, fs[0].Key, fs[0].Msg)
 				}
-				results[i] = r
 				return
 			}
-			for _, ob := range c.Failures() {
-				if ob.Rule == "type-check" {
-					r.broken = true
-					r.detail = fmt.Sprintf("%s: mutant does not compile (fix the self-test): %s", m.Name, ob.Msg)
-					break
-				}
-				if strings.HasPrefix(ob.Key, m.Rule) {
+			for _, ob := range fs {
+				if strings.HasPrefix(ob.Key, j.rule) {
 					r.killed = true
-					r.detail = fmt.Sprintf("%s → %s (%s)", m.Name, ob.Key, ob.Pos)
-					break
+					r.detail = fmt.Sprintf("%s → %s (%s)", j.name, ob.Key, ob.Pos)
+					return
 				}
 			}
-			if !r.killed && !r.skipped && !r.broken {
-				var got []string
-				for _, ob := range c.Failures() {
-					got = append(got, ob.Key)
-				}
-				r.detail = fmt.Sprintf("%s: expected a violation of %s*, got %v", m.Name, m.Rule, got)
+			var got []string
+			for _, ob := range fs {
+				got = append(got, ob.Key)
 			}
-			results[i] = r
-		}(i, m)
+			r.detail = fmt.Sprintf("%s: expected a violation of %s*, got %v", j.name, j.rule, got)
+		}(i, j)
 	}
 	wg.Wait()
 	for _, r := range results {
@@ -288,4 +323,52 @@ func selfTest(pr *rules.Property, base *an.Prog) *an.SelfTest {
 	}
 	sort.Strings(st.Samples)
 	return st
+}
+
+// applyPatch applies a unified diff to copies of the files it names (taken from the repository's
+// working tree) in a temporary directory and returns the patched contents; nothing in repo is touched.
+func applyPatch(repo, patchFile string) (map[string][]byte, error) {
+	b, err := os.ReadFile(patchFile)
+	if err != nil {
+		return nil, err
+	}
+	var files []string
+	for _, l := range strings.Split(string(b), "\n") {
+		if strings.HasPrefix(l, "+++ b/") {
+			files = append(files, strings.TrimSpace(strings.TrimPrefix(l, "+++ b/")))
+		}
+	}
+	if len(files) == 0 {
+		return nil, fmt.Errorf("no files in patch")
+	}
+	tmp, err := os.MkdirTemp("", "jetverif-patch-")
+	if err != nil {
+		return nil, err
+	}
+	defer os.RemoveAll(tmp)
+	for _, f := range files {
+		src, err := os.ReadFile(filepath.Join(repo, f))
+		if err != nil {
+			return nil, err
+		}
+		if err := os.MkdirAll(filepath.Dir(filepath.Join(tmp, f)), 0o755); err != nil {
+			return nil, err
+		}
+		if err := os.WriteFile(filepath.Join(tmp, f), src, 0o644); err != nil {
+			return nil, err
+		}
+	}
+	cmd := exec.Command("patch", "-p1", "-s", "--no-backup-if-mismatch", "-d", tmp, "-i", patchFile)
+	if out, err := cmd.CombinedOutput(); err != nil {
+		return nil, fmt.Errorf("%v: %s", err, firstLines(string(out), 3))
+	}
+	res := map[string][]byte{}
+	for _, f := range files {
+		nb, err := os.ReadFile(filepath.Join(tmp, f))
+		if err != nil {
+			return nil, err
+		}
+		res[f] = nb
+	}
+	return res, nil
 }
